@@ -575,4 +575,102 @@ class _NullCM:
         return False
 
 
-RULES = [r1_child_discovery, r2_traversals, r3_attribute_names, r4_declared_bases, r5_construction, r6_dispatch_namespace, r7_generated_model_classes]
+def r8_dispatch_history(a, tier):
+    import itertools
+    import keyword
+    import re as _re
+
+    from ..minieval import Unsupported
+    from ..modelinterp import Bound, Hook, ModelInterp
+    rep = RuleReport(
+        'C07.R8',
+        'walker dispatch depends on the class of the node, not on what was walked before: NodeWalker._find_walker, interpreted on '
+        'checker-made class hierarchies of the shape the model builder produces (Derived(DeclaredBase, SynthNode), chains, plain nodes) '
+        'with a walker that has methods for a declared base, an intermediate class and the root class, returns for every node class the '
+        'same method in EVERY order of lookups on one walker object as on a fresh walker (the lookup cache never answers for another class); '
+        'a class with its own walk_<Class> method gets it, a class in a single-inheritance chain gets the method of its nearest ancestor',
+        floor=50,
+    )
+    fw = a.p.func('tatsu.walkers.NodeWalker._find_walker')
+
+    class S:
+        _verif_standin = True
+
+    class Node(S):
+        pass
+
+    class SynthNode(Node):
+        pass
+
+    class Stmt(Node):
+        pass
+
+    class Expr(Node):
+        pass
+
+    class Decl(Stmt, SynthNode):
+        pass
+
+    class Call(Expr, SynthNode):
+        pass
+
+    class Plain(SynthNode):
+        pass
+
+    class Literal(Expr):
+        pass
+
+    class IntLiteral(Literal):
+        pass
+
+    class W(S):
+        def walk_Stmt(self, n):
+            pass
+
+        def walk_Expr(self, n):
+            pass
+
+        def walk_Literal(self, n):
+            pass
+
+        def walk_Node(self, n):
+            pass
+
+    def lookup(w, cls):
+        it = ModelInterp(a, {'re': Hook(None, sub=Hook(_re.sub)), 'callable': Hook(callable),
+                             'keyword': Hook(None, iskeyword=Hook(keyword.iskeyword), issoftkeyword=Hook(keyword.issoftkeyword), kwlist=keyword.kwlist, softkwlist=keyword.softkwlist),
+                             'getattr': Hook(lambda o, n, *d: getattr(o, n, *d) if isinstance(o, type) and getattr(o, '_verif_standin', False) else (d[0] if d else None))})
+        try:
+            r = it.call_bound(Bound(w, fw), [cls()], {})
+        except Unsupported as e:
+            raise AnalysisError(f'C07.R8: cannot interpret _find_walker: {e}') from e
+        return getattr(r, '__name__', r)
+
+    def walker():
+        w = W()
+        w._walker_cache = {}
+        return w
+    classes = [Node, Decl, Call, Plain, Stmt, IntLiteral]
+    fresh = {c: lookup(walker(), c) for c in classes}
+    for c, want in ((Stmt, 'walk_Stmt'), (Node, 'walk_Node'), (IntLiteral, 'walk_Literal')):
+        ok = fresh[c] == want
+        rep.add({'class': c.__name__, 'fresh_walker_dispatches_to': fresh[c], 'required': want, 'ok': ok})
+        if not ok:
+            rep.fail(fw.qualname, f'dispatch:{c.__name__}', f'a node of class {c.__name__} is dispatched to {fresh[c]}; required {want} (its own method / the method '
+                     f'of its nearest ancestor)', fw.loc)
+    orders = list(itertools.permutations(classes)) if tier == 'thorough' else [o for i, o in enumerate(itertools.permutations(classes)) if i % 6 == 0]
+    n_bad = 0
+    for order in orders:
+        w = walker()
+        got = {c: lookup(w, c) for c in order}
+        diff = [(c.__name__, got[c], fresh[c]) for c in order if got[c] != fresh[c]]
+        rep.add({'lookup_order': [c.__name__ for c in order], 'same_as_fresh': not diff})
+        if diff and n_bad < 4:
+            n_bad += 1
+            c, g_, f_ = diff[0]
+            rep.fail(fw.qualname, f'dispatch-history:{c}', f'after the lookups {[x.__name__ for x in order[:list(order).index(next(k for k in order if k.__name__ == c))]]} '
+                     f'a node of class {c} is dispatched to {g_}; a fresh walker dispatches it to {f_}: nodes are handed to the wrong method depending on what was walked before', fw.loc)
+    return rep
+
+
+RULES = [r1_child_discovery, r2_traversals, r3_attribute_names, r4_declared_bases, r5_construction, r6_dispatch_namespace, r7_generated_model_classes, r8_dispatch_history]
